@@ -14,8 +14,8 @@ CONFIG = {
     ],
     "assumptions": [
         "model/Entity.v is the hand-written model of sourcewalk/entity.go (entityNode.run, accept*), of the service/topic expansion in sourcewalk/{service,topic}.go and of the j5convert steps that decide names, numbers, required/flatten/psm/list options and http paths; it is tied to the code by the regenerated tables (proofs/EntityGenProofs.v) and by compiling every generated declaration with the real compiler and comparing the canonical descriptor dump line by line",
-        "user-declared fields are scalars (9 types) or key fields (id62/uuid/plain; primary / foreign / tenant), optionally required or proto3-optional; other field types pass through entity.go untouched and belong to C02",
-        "declarations are admissible: distinct field/event/method/summary names (after ToSnake/ToCamel), clean relative command paths whose parameters are request fields; the walker errors (unknown default status, duplicate summary) and the optional+required clash of buildProperty are modelled and exercised by the malformed stream",
+        "user-declared fields are scalars (9 types), key fields (id62/uuid/plain; primary / foreign / tenant) or object references (object:<Name>) to objects declared in the entity block or to the generated Keys/Data, optionally required or proto3-optional; other field types pass through entity.go untouched and belong to C02",
+        "declarations are admissible: distinct field/event/method/summary names (after ToSnake/ToCamel), clean relative command paths whose parameters are request fields; the walker errors (unknown default status, duplicate summary), the optional+required clash of buildProperty, a path parameter that is not a request field and a dangling object reference are modelled and exercised by the malformed stream",
         "'the same entity annotation': psm and service options carry ToSnake(name), topics carry <package>.ToCamel(name); the Status enum and the EventType oneof have no annotation slot (there is no EntityPart for them)",
     ],
     "mult_search": 4,
@@ -24,7 +24,7 @@ CONFIG = {
 }
 
 MANIFEST = {
-    "text": "Theorems over a Gallina model of entityNode.run and the service/topic/descriptor steps it drives, for ALL entity declarations (any name bytes, any number of keys/data/statuses/events/commands/summaries, any query settings): the emitted components are exactly Keys, Data, Status, State, EventType, Event, the query service with Get/List/Events and their messages, each declared command service, the publish topic and one upsert topic per summary, in that order and named from ToCamel(name) / ToCamel(ToSnake(name)); every reference resolves inside the expansion or the implicit imports (closed), hence compile = expand; all psm/service annotations equal ToSnake(name) and all topic annotations <pkg>.ToCamel(name); State/Event shapes; event oneof <-> events bijection with nested messages; primary keys required, keys in declaration order, Get/Events paths are <base>/{k}.. over the primary+shard keys in order; statuses numbered 1..n after UNSPECIFIED. lib/Strcase.v is a byte-exact model of strcase v0.3.0 with proved laws (camel suffix stability iff the name does not end in a capital, ToLowerCamel.ToSnake on lowerCamel names, ToSnake idempotence). A second observable, the StateEntity that the real structure/j5client code derives from the compiled descriptors (name, State schema, primary keys, query/command services with paths, events), is compared with the model's client_view and proved consistent with the descriptors. Defect #16 (entity FooS: 'type FooSState not found') was repaired in /repo (fix d657973); the theorems hold without a camel-stability hypothesis and the pre-fix naming is kept as a refuted lemma. Two further defects found by the second observable were repaired: default status filters named a non-existent enum value for statuses not in upper snake case (fix 705ef70, theorem C17_default_filters_are_statuses) and an entity without events compiled to an empty proto oneof that protodesc/j5client reject (fix e5711b2). Tie: EntityGen.v tables regenerated from entity.go/topic.go/file.go/imports.go/go.mod + every generated declaration compiled by the real compiler (lib/verifshim/compile) and its descriptors compared with the model's expansion; direct oracle re-states the property clauses on the real descriptors.",
+    "text": "Theorems over a Gallina model of entityNode.run and the service/topic/descriptor steps it drives, for ALL entity declarations (any name bytes, any number of keys/data/statuses/events/commands/summaries, any query settings): the emitted components are exactly Keys, Data, Status, State, EventType, Event, the query service with Get/List/Events and their messages, each declared command service, the publish topic and one upsert topic per summary, in that order and named from ToCamel(name) / ToCamel(ToSnake(name)); every reference that entity.go creates resolves inside the expansion or the implicit imports, and the file is closed exactly when the user's own object references resolve (both directions), hence compile = expand up to three named user-field errors; files with several entities compile to the concatenation and stay closed; all psm/service annotations equal ToSnake(name) and all topic annotations <pkg>.ToCamel(name); State/Event shapes; event oneof <-> events bijection with nested messages; primary keys required, keys in declaration order, Get/Events paths are <base>/{k}.. over the primary+shard keys in order; statuses numbered 1..n after UNSPECIFIED. lib/Strcase.v is a byte-exact model of strcase v0.3.0 with proved laws (camel suffix stability iff the name does not end in a capital, ToLowerCamel.ToSnake on lowerCamel names, ToSnake idempotence). A second observable, the StateEntity that the real structure/j5client code derives from the compiled descriptors (name, State schema, primary keys, query/command services with paths, events), is compared with the model's client_view and proved consistent with the descriptors. Defect #16 (entity FooS: 'type FooSState not found') was repaired in /repo (fix d657973); the theorems hold without a camel-stability hypothesis and the pre-fix naming is kept as a refuted lemma. Two further defects found by the second observable were repaired: default status filters named a non-existent enum value for statuses not in upper snake case (fix 705ef70, theorem C17_default_filters_are_statuses) and an entity without events compiled to an empty proto oneof that protodesc/j5client reject (fix e5711b2). Tie: EntityGen.v tables regenerated from entity.go/topic.go/file.go/imports.go/go.mod + every generated declaration compiled by the real compiler (lib/verifshim/compile) and its descriptors compared with the model's expansion; direct oracle re-states the property clauses on the real descriptors.",
     "note": "Trusted: Coq kernel; the translator; the harness (generator, j5s printer, descriptor dump). strcase, path.Join and field-type conversion are modelled/exercised, not verified. All C17 theorems are closed under the global context. Observation (not a finding): the query service and its methods are named ToCamel(ToSnake(name)) while all other parts use ToCamel(name); these differ for names such as 'ABc' (AbcState vs ABcQueryService).",
     "technique": "Rocq/Coq proof (structural, all declarations) + regenerated code tables + in-Coq differential correspondence against the real compiler's descriptors",
 }
